@@ -24,8 +24,8 @@ SPEC = {
     "watchdog_s": {"quick": 900, "thorough": 3600},
 }
 PLAN = {
-    "quick": {"small_n": 4, "random": {"M2": 1200, "M3": 600, "M4": 300, "M5": 1500, "M5all": 32, "M7s": 200, "M10hiso": 300}, "corpus": True},
-    "thorough": {"small_n": 5, "small_sample": 0.1, "random": {"M2": 12000, "M3": 6000, "M4": 3000, "M5": 15000, "M5all": 300, "M7s": 2000, "M10hiso": 3000}, "corpus": True, "cfi": 6},
+    "quick": {"small_n": 4, "random": {"M2": 1200, "M3": 600, "M4": 300, "M5": 1500, "M5all": 32, "M7s": 200, "M10hiso": 300, "M12rings": 200}, "corpus": True},
+    "thorough": {"small_n": 5, "small_sample": 0.1, "random": {"M2": 12000, "M3": 6000, "M4": 3000, "M5": 15000, "M5all": 300, "M7s": 2000, "M10hiso": 3000, "M12rings": 2000}, "corpus": True, "cfi": 6},
 }
 
 
